@@ -89,6 +89,7 @@ type Frame struct {
 	escapes  map[*ssa.Alloc]bool
 	snaps       map[string]*State
 	deferCell   map[*ssa.Defer]*Cell // flags of defers that not every return passes
+	callRes     map[string]Val       // result_of(k, f): by call position
 	oldOverride *State
 }
 
@@ -291,6 +292,9 @@ func (e *Exec) run(fr *Frame, args []Val, st *State) (*State, []Val) {
 				e.instr(fr, cur, ins2)
 			}
 			if isFalse(cur.reach) && e.noPrune == 0 {
+				if os.Getenv("SHVC_DEBUG") != "" && !terminated && e.pure == 0 {
+					fmt.Fprintf(os.Stderr, "path dies at %s: %s\n", e.eng.fset.Position(ins2.Pos()), ins2)
+				}
 				terminated = true
 			}
 			if terminated {
@@ -972,6 +976,13 @@ func (e *Exec) instr(fr *Frame, st *State, ins ssa.Instruction) {
 	case *ssa.Call:
 		e.siteAsserts(fr, st, x.Pos(), 1)
 		fr.vals[x] = e.call(fr, st, x, &x.Call)
+		if fr.spec != nil && e.pure == 0 && x.Pos() != token.NoPos {
+			if fr.callRes == nil {
+				fr.callRes = map[string]Val{}
+			}
+			pp := e.eng.fset.Position(x.Pos())
+			fr.callRes[fmt.Sprintf("%s:%d", pp.Filename, pp.Offset)] = fr.vals[x]
+		}
 		if !hasExtract(x) {
 			e.siteAsserts(fr, st, x.Pos(), 2)
 		}
@@ -1066,6 +1077,12 @@ func (e *Exec) siteAsserts(fr *Frame, st *State, pos token.Pos, kind int) {
 		return
 	}
 	pp := e.eng.fset.Position(pos)
+	if kind == 1 && os.Getenv("SHVC_DEBUG_SITES") != "" {
+		fmt.Fprintf(os.Stderr, "site %s off=%d\n", pp, pp.Offset)
+		for _, a := range fr.spec.Asserts {
+			fmt.Fprintf(os.Stderr, "   assert %s at %s off=%d dead=%v before=%v\n", a.Clause.Label, a.File, a.Off, a.Dead, a.Before)
+		}
+	}
 	if kind == 1 {
 		// snapshot points for "since call k f": the state just before that call
 		for _, ls := range fr.spec.Loops {
@@ -1120,7 +1137,19 @@ func (e *Exec) siteAsserts(fr *Frame, st *State, pos token.Pos, kind int) {
 				e.assume(st, t)
 				continue
 			}
+			// checked, not assumed afterwards: an assertion that fails (or is not claimed) must not make the
+			// assertions after it provable
+			saved := st.reach
 			e.oblige(st, "assert", "assert:"+a.Clause.Label, t, pos)
+			st.reach = saved
+			// vacuity guard: the assertion site itself is reachable under everything assumed so far (including
+			// callee preconditions that were not proved)
+			e.oblNames["reach:"+a.Clause.Label]++
+			cn := e.oblPrefix + "reach:" + a.Clause.Label
+			if n := e.oblNames["reach:"+a.Clause.Label]; n > 1 {
+				cn = fmt.Sprintf("%s#%d", cn, n)
+			}
+			e.obls = append(e.obls, &Obligation{Name: cn, Kind: "cover", Reach: st.reach, Cond: e.c.True(), Cover: true, Pos: pos})
 		}
 	}
 }
@@ -1276,7 +1305,12 @@ func (e *Exec) indexAddr(fr *Frame, st *State, x *ssa.IndexAddr) {
 			fr.vals[x] = Val{T: e.elemRef(xv.T, iv)}
 			return
 		}
-		e.fail("IndexAddr on pointer to array of aggregates")
+		if isArrayT(at.Elem()) && xv.T != nil {
+			// array of arrays: the inner arrays are objects elem(ref, i) of their own
+			fr.vals[x] = Val{T: e.elemRef(xv.T, iv)}
+			return
+		}
+		e.fail("IndexAddr on pointer to array of aggregates: %s (%s) at %s", x, x.X.Type(), e.eng.fset.Position(x.Pos()))
 	default:
 		e.fail("IndexAddr on %s", x.X.Type())
 	}
